@@ -211,6 +211,13 @@ impl TableProvider {
         }
     }
 
+    /// shares the union table of another provider over the same universe, so that
+    /// union ids handed out by either mean the same
+    pub fn with_unions_of(self, other: &TableProvider) -> Self {
+        *self.unions.borrow_mut() = other.unions.borrow().clone();
+        self
+    }
+
     pub fn requirement(&self, r: &[u32]) -> Requirement {
         if r.len() == 1 {
             Requirement::Single(self.maps.vid(r[0]))
